@@ -132,7 +132,8 @@ def run_check(chk, ctx):
         traceback.print_exc()
         broken.append({"kind": "correspondence-crashed", "name": prop, "detail": "%s: %s" % (type(e).__name__, e)})
     for mm in res.mismatches[:50]:
-        broken.append({"kind": "correspondence", "name": mm.get("stream", "?"), "detail": json.dumps(mm)[:600]})
+        broken.append({"kind": "correspondence", "name": mm.get("stream", "?"),
+                       "detail": json.dumps({"model": mm.get("model"), "impl": mm.get("impl")})[:1200], "input": mm.get("input")})
     # 6 directed search when something broke and no concrete failure is known yet ------------
     if broken and not res.oracle_failures:
         try:
